@@ -1,5 +1,6 @@
 -- C13 helper lemmas: the adapter's primitive steps preserve the abstraction `St.abs` and the invariant
 import Winter.Model.Reader
+import WinterProofs.Lemmas.C13Generic
 
 namespace WinterProofs.C13
 open Model.Reader
@@ -16,6 +17,12 @@ structure Inv (s : St) : Prop where
   pos_le : s.pos ≤ s.buf.length
   eof : s.eofSeen = true → s.rbuf = [] ∧ s.src.flatten = []
   geof : s.geof = true → s.eofSeen = true
+
+instance decFused : ∀ l : List (List Nat), Decidable (Fused l)
+  | [] => .isTrue trivial
+  | c :: rest =>
+    have := decFused rest
+    show Decidable ((c = [] → rest.flatten = []) ∧ Fused rest) from inferInstance
 
 theorem fused_of_flatten_nil : ∀ l : List (List Nat), l.flatten = [] → Fused l
   | [], _ => trivial
@@ -112,5 +119,491 @@ theorem fill_empty (s : St) (h : Inv s) (he : (St.fill s).rbuf = []) :
   · have hfs : St.fill s = s := by unfold St.fill; simp [hre]
     rw [hfs] at he
     simp [he] at hre
+
+
+-- ------------------------------------------------------------------------------------------ Mem
+theorem mem_readU8_nil : Mem.readU8 [] = (.eof, []) := rfl
+theorem mem_readU8_cons (b : Nat) (l : List Nat) : Mem.readU8 (b :: l) = (.ok b, l) := rfl
+theorem mem_peekU8_nil : Mem.peekU8 [] = (.eof, []) := rfl
+theorem mem_peekU8_cons (b : Nat) (l : List Nat) : Mem.peekU8 (b :: l) = (.ok b, b :: l) := rfl
+theorem mem_readSlice (n : Nat) (l : List Nat) :
+    Mem.readSlice n l = if l.length < n then (.eof, l) else (.ok (l.take n), l.drop n) := rfl
+theorem mem_readArray (n : Nat) (l : List Nat) :
+    Mem.readArray n l = if l.length < n then (.eof, l) else (.ok (l.take n), l.drop n) := rfl
+theorem mem_hasMore (l : List Nat) : Mem.hasMore l = (!l.isEmpty, l) := rfl
+
+-- ------------------------------------------------------------------------------------------ pop / peek
+theorem unread_length (s : St) : s.unread.length = s.buf.length - s.pos := by
+  simp [St.unread]
+
+theorem unread_cons {s : St} {b : Nat} {t : List Nat} (hu : s.unread = b :: t) :
+    s.pos < s.buf.length ∧ s.buf.drop (s.pos + 1) = t := by
+  constructor
+  · have := unread_length s
+    rw [hu] at this
+    simp at this
+    omega
+  · have := congrArg List.tail hu
+    simpa [St.unread, List.tail_drop] using this
+
+theorem pop_refines (s : St) (hs : Inv s) : Agree Inv St.abs (St.pop s) (Mem.readU8 s.abs) := by
+  unfold St.pop
+  split
+  · rename_i b t hu
+    obtain ⟨hlt, hdrop⟩ := unread_cons hu
+    have habs : s.abs = b :: (t ++ s.rbuf ++ s.src.flatten) := by simp [St.abs, hu]
+    rw [habs, mem_readU8_cons]
+    refine ⟨rfl, ?_, ⟨hs.fused, hlt, hs.eof, hs.geof⟩⟩
+    simp [St.abs, St.unread, hdrop]
+  · rename_i hu
+    have hf := fill_inv s hs
+    have hfu : (St.fill s).unread = [] := by rw [fill_unread]; exact hu
+    dsimp only
+    split
+    · rename_i b r hr
+      have habs : s.abs = b :: (r ++ (St.fill s).src.flatten) := by
+        rw [← fill_abs]; simp [St.abs, hfu, hr]
+      rw [habs, mem_readU8_cons]
+      refine ⟨rfl, ?_, ⟨hf.fused, hf.pos_le, ?_, hf.geof⟩⟩
+      · simp only [St.abs, St.unread] at hfu ⊢
+        simp [hfu]
+      · intro he
+        have := (hf.eof he).1
+        simp [hr] at this
+    · rename_i hr
+      obtain ⟨hsrc, hes⟩ := fill_empty s hs hr
+      have habs : s.abs = [] := by
+        rw [← fill_abs]; simp [St.abs, hfu, hr, hsrc]
+      rw [habs, mem_readU8_nil]
+      refine ⟨rfl, ?_, ⟨hf.fused, hf.pos_le, hf.eof, fun _ => hes⟩⟩
+      simp only [St.abs, St.unread] at hfu ⊢
+      simp [hfu, hr, hsrc]
+
+theorem peekU8_refines (s : St) (hs : Inv s) : Agree Inv St.abs (St.peekU8 s) (Mem.peekU8 s.abs) := by
+  unfold St.peekU8
+  split
+  · rename_i b t hu
+    have habs : s.abs = b :: (t ++ s.rbuf ++ s.src.flatten) := by simp [St.abs, hu]
+    rw [habs, mem_peekU8_cons]
+    exact ⟨rfl, habs, hs⟩
+  · rename_i hu
+    have hf := fill_inv s hs
+    have hfu : (St.fill s).unread = [] := by rw [fill_unread]; exact hu
+    dsimp only
+    split
+    · rename_i b r hr
+      have habs : s.abs = b :: (r ++ (St.fill s).src.flatten) := by
+        rw [← fill_abs]; simp [St.abs, hfu, hr]
+      rw [habs, mem_peekU8_cons]
+      exact ⟨rfl, by rw [fill_abs]; exact habs, hf⟩
+    · rename_i hr
+      obtain ⟨hsrc, hes⟩ := fill_empty s hs hr
+      have habs : s.abs = [] := by
+        rw [← fill_abs]; simp [St.abs, hfu, hr, hsrc]
+      rw [habs, mem_peekU8_nil]
+      exact ⟨rfl, by rw [fill_abs]; exact habs, hf⟩
+
+theorem hasMore_refines (s : St) (hs : Inv s) : Agree Inv St.abs (St.hasMore s) (Mem.hasMore s.abs) := by
+  unfold St.hasMore
+  rw [mem_hasMore]
+  split
+  · rename_i hu
+    have hu' : s.unread = [] := by simpa using hu
+    have hf := fill_inv s hs
+    have hfu : (St.fill s).unread = [] := by rw [fill_unread]; exact hu'
+    refine ⟨?_, fill_abs s, hf⟩
+    by_cases hr : (St.fill s).rbuf = []
+    · obtain ⟨hsrc, _⟩ := fill_empty s hs hr
+      have habs : s.abs = [] := by
+        rw [← fill_abs]; simp [St.abs, hfu, hr, hsrc]
+      simp [hr, habs]
+    · have habs : s.abs ≠ [] := by
+        rw [← fill_abs]; simp [St.abs, hr]
+      rw [Bool.eq_iff_iff]; simp [hr, habs]
+  · rename_i hu
+    have habs : s.abs ≠ [] := by
+      intro h0
+      simp [St.abs] at h0
+      simp [h0.1] at hu
+    refine ⟨?_, rfl, hs⟩
+    simp [habs]
+
+theorem checkEor_spec (n : Nat) (s : St) (hs : Inv s) :
+    (St.checkEor s n).2.abs = s.abs ∧ Inv (St.checkEor s n).2 ∧
+      ((St.checkEor s n).1 = .ok () ∨ ((St.checkEor s n).1 = .eof ∧ s.abs.length < n)) := by
+  unfold St.checkEor
+  simp only
+  split
+  · exact ⟨rfl, hs, Or.inl rfl⟩
+  · rename_i hlt
+    have hf := fill_inv s hs
+    split
+    · rename_i hr
+      have hr' : (St.fill s).rbuf = [] := by simpa using hr
+      obtain ⟨hsrc, _⟩ := fill_empty s hs hr'
+      refine ⟨fill_abs s, hf, Or.inr ⟨rfl, ?_⟩⟩
+      rw [← fill_abs]
+      simp [St.abs, hr', hsrc, fill_unread]
+      omega
+    · split
+      · exact ⟨fill_abs s, hf, Or.inl rfl⟩
+      · rename_i hr hlt2
+        split
+        · rename_i hg
+          have he := hf.geof hg
+          have := (hf.eof he).1
+          simp [this] at hr
+        · exact ⟨fill_abs s, hf, Or.inl rfl⟩
+
+-- ------------------------------------------------------------------------------------------ buffer_at_least
+/-- bound on the remaining iterations of the `buffer_at_least` loop -/
+def loopMeasure (s : St) : Nat := s.src.length + (if s.rbuf = [] then 0 else 1)
+
+theorem fill_src_lt (s : St) (h : (St.fill s).rbuf ≠ []) : (St.fill s).src.length + 1 ≤ loopMeasure s := by
+  by_cases hre : s.rbuf.isEmpty = true
+  · have hr : s.rbuf = [] := by simpa using hre
+    unfold St.fill at h ⊢
+    simp only [hre, if_true] at h ⊢
+    split
+    · rename_i hsrc
+      simp [hsrc, hr] at h
+    · rename_i c rest hsrc
+      simp [loopMeasure, hr, hsrc]
+  · have hfs : St.fill s = s := by unfold St.fill; simp [hre]
+    have hr : s.rbuf ≠ [] := by simpa using hre
+    rw [hfs]
+    simp [loopMeasure, hr]
+
+theorem fillMut_false (s : St) (hs : Inv s) (h : (St.fillMut s).1 = false) :
+    (St.fillMut s).2.abs = s.abs ∧ Inv (St.fillMut s).2 ∧ s.abs = s.unread ∧
+      (St.fillMut s).2.orc = s.orc := by
+  unfold St.fillMut at h ⊢
+  simp only at h ⊢
+  by_cases hr : (St.fill s).rbuf.isEmpty = true
+  · have hr' : (St.fill s).rbuf = [] := by simpa using hr
+    obtain ⟨hsrc, hes⟩ := fill_empty s hs hr'
+    have hf := fill_inv s hs
+    simp only [hr, if_true]
+    refine ⟨?_, ⟨hf.fused, hf.pos_le, hf.eof, fun _ => hes⟩, ?_, fill_orc s⟩
+    · exact fill_abs s
+    · rw [← fill_abs]; simp [St.abs, hr', hsrc, fill_unread]
+  · simp [hr] at h
+
+theorem fillMut_true (s : St) (h : (St.fillMut s).1 = true) :
+    (St.fillMut s).2 = St.fill s ∧ (St.fill s).rbuf ≠ [] := by
+  unfold St.fillMut at h ⊢
+  simp only at h ⊢
+  by_cases hr : (St.fill s).rbuf.isEmpty = true
+  · simp [hr] at h
+  · simp only [hr]
+    exact ⟨rfl, by simpa using hr⟩
+
+/-- moving the whole `BufReader` buffer into `buf` (one iteration of the loop) -/
+theorem absorb_spec (s1 : St) (h1 : Inv s1) (hne : s1.rbuf ≠ []) :
+    let s2 : St := { s1 with buf := s1.buf ++ s1.rbuf, rbuf := [] }
+    s2.abs = s1.abs ∧ Inv s2 ∧ loopMeasure s2 = s1.src.length ∧ s2.orc = s1.orc := by
+  refine ⟨?_, ⟨h1.fused, ?_, ?_, h1.geof⟩, ?_, rfl⟩
+  · simp [St.abs, St.unread, List.drop_append_of_le_length h1.pos_le]
+  · simp; have := h1.pos_le; omega
+  · intro he
+    exact absurd (h1.eof he).1 hne
+  · simp [loopMeasure]
+
+theorem bufferAtLeastF_spec : ∀ (fuel : Nat) (s : St) (count : Nat), Inv s → loopMeasure s < fuel →
+    (St.bufferAtLeastF fuel s count).2.abs = s.abs ∧ Inv (St.bufferAtLeastF fuel s count).2 ∧
+      (St.bufferAtLeastF fuel s count).2.orc = s.orc ∧
+      (((St.bufferAtLeastF fuel s count).1 = .ok () ∧ count ≤ (St.bufferAtLeastF fuel s count).2.unread.length) ∨
+        ((St.bufferAtLeastF fuel s count).1 = .eof ∧ s.abs.length < count))
+  | 0, s, count, _, hm => by omega
+  | fuel + 1, s, count, hs, hm => by
+    unfold St.bufferAtLeastF
+    split
+    · rename_i hge
+      exact ⟨rfl, hs, rfl, Or.inl ⟨rfl, hge⟩⟩
+    · rename_i hlt
+      simp only
+      by_cases hr : (St.fillMut s).1 = true
+      · obtain ⟨he, hne⟩ := fillMut_true s hr
+        simp only [hr, if_true]
+        rw [he]
+        have h1 := fill_inv s hs
+        obtain ⟨a1, a2, a3, a4⟩ := absorb_spec (St.fill s) h1 hne
+        have hlt' := fill_src_lt s hne
+        obtain ⟨b1, b2, b3, b4⟩ := bufferAtLeastF_spec fuel _ count a2 (by omega)
+        refine ⟨by rw [b1, a1, fill_abs], b2, by rw [b3, a4, fill_orc], ?_⟩
+        rcases b4 with b4 | b4
+        · exact Or.inl b4
+        · refine Or.inr ⟨b4.1, ?_⟩
+          have := b4.2
+          rw [a1, fill_abs] at this
+          exact this
+      · have hr' : (St.fillMut s).1 = false := by simpa using hr
+        obtain ⟨c1, c2, c3, c4⟩ := fillMut_false s hs hr'
+        simp only [hr']
+        refine ⟨c1, c2, c4, Or.inr ⟨rfl, ?_⟩⟩
+        rw [c3]; omega
+
+theorem bufferAtLeast_spec (s : St) (count : Nat) (hs : Inv s) :
+    (St.bufferAtLeast s count).2.abs = s.abs ∧ Inv (St.bufferAtLeast s count).2 ∧
+      (St.bufferAtLeast s count).2.orc = s.orc ∧
+      (((St.bufferAtLeast s count).1 = .ok () ∧ count ≤ (St.bufferAtLeast s count).2.unread.length) ∨
+        ((St.bufferAtLeast s count).1 = .eof ∧ s.abs.length < count)) := by
+  unfold St.bufferAtLeast
+  apply bufferAtLeastF_spec _ _ _ hs
+  unfold loopMeasure
+  split <;> omega
+
+
+-- ------------------------------------------------------------------------------------------ read_slice / read_exact
+/-- taking `N` bytes through `buf` (the body shared by `read_slice` and the fallback of `read_exact`) -/
+theorem exactFromBuf_refines (N : Nat) (s : St) (hs : Inv s) :
+    Agree Inv St.abs (St.exactFromBuf s N) (Mem.readArray N s.abs) ∧ (St.exactFromBuf s N).2.orc = s.orc := by
+  obtain ⟨a1, a2, a3, a4⟩ := bufferAtLeast_spec s N hs
+  rcases hb : St.bufferAtLeast s N with ⟨r, s2⟩
+  rw [hb] at a1 a2 a3 a4
+  simp only at a1 a2 a3 a4
+  unfold St.exactFromBuf andThen
+  rw [mem_readArray]
+  simp only [hb]
+  rcases a4 with ⟨hr, hlen⟩ | ⟨hr, hlen⟩
+  · subst hr
+    have hnl : ¬ s2.unread.length < N := by omega
+    have habs : s.abs = s2.unread ++ (s2.rbuf ++ s2.src.flatten) := by
+      rw [← a1]; simp [St.abs]
+    have hle : ¬ s.abs.length < N := by rw [habs]; simp; omega
+    simp only [hnl, hle, if_false]
+    have hul := unread_length s2
+    refine ⟨⟨?_, ?_, ⟨a2.fused, ?_, a2.eof, a2.geof⟩⟩, a3⟩
+    · simp only
+      rw [habs, List.take_append_of_le_length hlen]
+    · simp only
+      rw [habs, List.drop_append_of_le_length hlen]
+      simp [St.abs, St.unread, List.drop_drop]
+    · have := a2.pos_le
+      simp only; omega
+  · subst hr
+    simp only [hlen, if_true]
+    exact ⟨⟨rfl, a1, a2⟩, a3⟩
+
+theorem readSlice_refines (n : Nat) (s : St) (hs : Inv s) :
+    Agree Inv St.abs (St.readSlice s n) (Mem.readSlice n s.abs) := by
+  unfold St.readSlice
+  by_cases h0 : n = 0
+  · subst h0
+    simp only [if_true]
+    rw [mem_readSlice]
+    simp
+    exact ⟨rfl, rfl, hs⟩
+  · simp only [h0, if_false]
+    -- the state after the (possible) compaction
+    have key : ∀ s1 : St, Inv s1 → s1.abs = s.abs →
+        Agree Inv St.abs (St.exactFromBuf s1 n) (Mem.readSlice n s.abs) := by
+      intro s1 h1 ha
+      have := (exactFromBuf_refines n s1 h1).1
+      rw [ha] at this
+      exact this
+    split
+    · rename_i hc
+      apply key
+      · refine ⟨hs.fused, by simp, hs.eof, hs.geof⟩
+      · simp [St.abs, St.unread]
+    · apply key
+      · exact ⟨hs.fused, hs.pos_le, hs.eof, hs.geof⟩
+      · rfl
+
+theorem resetIfDrained_spec (s : St) (hs : Inv s) :
+    (St.resetIfDrained s).abs = s.abs ∧ Inv (St.resetIfDrained s) := by
+  unfold St.resetIfDrained
+  split
+  · rename_i h
+    have hu : s.unread = [] := by simpa using h.1
+    refine ⟨?_, ⟨hs.fused, by simp, hs.eof, hs.geof⟩⟩
+    simp [St.abs, St.unread] at hu ⊢
+    exact hu
+  · exact ⟨rfl, hs⟩
+
+theorem readExact_refines (N : Nat) (hN : N ≠ 0) (s : St) (hs : Inv s) :
+    Agree Inv St.abs (St.readExact s N) (Mem.readArray N s.abs) := by
+  unfold St.readExact
+  simp only
+  have hul := unread_length s
+  split
+  · -- nothing buffered in `buf`
+    rename_i hn
+    have hu : s.unread = [] := List.eq_nil_of_length_eq_zero hn
+    by_cases hr : (St.fillMut s).1 = true
+    · obtain ⟨he, hne⟩ := fillMut_true s hr
+      simp only [hr, if_true]
+      rw [he]
+      have h1 := fill_inv s hs
+      split
+      · have := (exactFromBuf_refines N (St.fill s) h1).1
+        rw [fill_abs] at this
+        exact this
+      · rename_i hlen
+        have hlen' : N ≤ (St.fill s).rbuf.length := by omega
+        have hfu : (St.fill s).unread = [] := by rw [fill_unread]; exact hu
+        have habs : s.abs = (St.fill s).rbuf ++ (St.fill s).src.flatten := by
+          rw [← fill_abs]; simp [St.abs, hfu]
+        have hi2 : Inv { St.fill s with rbuf := (St.fill s).rbuf.drop N } := by
+          refine ⟨h1.fused, h1.pos_le, ?_, h1.geof⟩
+          intro he2
+          exact absurd (h1.eof he2).1 hne
+        obtain ⟨r1, r2⟩ := resetIfDrained_spec _ hi2
+        rw [mem_readArray]
+        have hle : ¬ s.abs.length < N := by rw [habs]; simp; omega
+        simp only [hle, if_false]
+        refine ⟨?_, ?_, r2⟩
+        · simp only
+          rw [habs, List.take_append_of_le_length hlen']
+        · simp only
+          rw [r1, habs, List.drop_append_of_le_length hlen']
+          simp only [St.abs, St.unread] at hfu ⊢
+          simp [hfu]
+    · have hr' : (St.fillMut s).1 = false := by simpa using hr
+      obtain ⟨c1, c2, c3, _⟩ := fillMut_false s hs hr'
+      simp only [hr']
+      rw [mem_readArray]
+      have hlt : s.abs.length < N := by rw [c3, hu]; simp; omega
+      simp only [hlt, if_true]
+      exact ⟨rfl, c1, c2⟩
+  · rename_i hn
+    split
+    · -- enough in `buf`
+      rename_i hge
+      have habs : s.abs = s.unread ++ (s.rbuf ++ s.src.flatten) := by simp [St.abs]
+      have hi2 : Inv { s with pos := s.pos + N } := by
+        refine ⟨hs.fused, ?_, hs.eof, hs.geof⟩
+        simp only; omega
+      obtain ⟨r1, r2⟩ := resetIfDrained_spec _ hi2
+      rw [mem_readArray]
+      have hle : ¬ s.abs.length < N := by rw [habs]; simp; omega
+      simp only [hle, if_false]
+      refine ⟨?_, ?_, r2⟩
+      · simp only
+        rw [habs, List.take_append_of_le_length hge]
+      · simp only
+        rw [r1, habs, List.drop_append_of_le_length hge]
+        simp [St.abs, St.unread, List.drop_drop]
+    · -- some, but fewer than N, in `buf`
+      rename_i hlt
+      by_cases hr : (St.fillMut s).1 = true
+      · obtain ⟨he, hne⟩ := fillMut_true s hr
+        simp only [hr, if_true]
+        rw [he]
+        have h1 := fill_inv s hs
+        split
+        · rename_i hmn
+          have hfu : (St.fill s).unread = s.unread := fill_unread s
+          have habs : s.abs = s.unread ++ ((St.fill s).rbuf ++ (St.fill s).src.flatten) := by
+            rw [← fill_abs]; simp [St.abs, hfu]
+          have hpos : (St.fill s).pos + s.unread.length = (St.fill s).buf.length := by
+            rw [fill_pos, fill_buf]; have := hs.pos_le; omega
+          have hi2 : Inv { St.fill s with pos := (St.fill s).pos + s.unread.length,
+                                          rbuf := (St.fill s).rbuf.drop (N - s.unread.length) } := by
+            refine ⟨h1.fused, ?_, ?_, h1.geof⟩
+            · simp only; omega
+            · intro he2
+              exact absurd (h1.eof he2).1 hne
+          obtain ⟨r1, r2⟩ := resetIfDrained_spec _ hi2
+          rw [mem_readArray]
+          have hle : ¬ s.abs.length < N := by rw [habs]; simp; omega
+          simp only [hle, if_false]
+          have hk : N - s.unread.length ≤ (St.fill s).rbuf.length := by omega
+          have ht : s.unread.take N = s.unread := List.take_of_length_le (by omega)
+          have hd : s.unread.drop N = [] := List.drop_eq_nil_of_le (by omega)
+          refine ⟨?_, ?_, r2⟩
+          · simp only
+            rw [habs, hfu, List.take_append, ht, List.take_append_of_le_length hk]
+          · simp only
+            rw [r1, habs, List.drop_append, hd, List.drop_append_of_le_length hk]
+            simp [St.abs, St.unread]
+            omega
+        · have := (exactFromBuf_refines N (St.fill s) h1).1
+          rw [fill_abs] at this
+          exact this
+      · have hr' : (St.fillMut s).1 = false := by simpa using hr
+        obtain ⟨c1, c2, c3, _⟩ := fillMut_false s hs hr'
+        simp only [hr']
+        rw [mem_readArray]
+        have hlt' : s.abs.length < N := by rw [c3]; omega
+        simp only [hlt', if_true]
+        exact ⟨rfl, c1, c2⟩
+
+theorem readArray_refines (N : Nat) (s : St) (hs : Inv s) :
+    Agree Inv St.abs (St.readArray s N) (Mem.readArray N s.abs) := by
+  unfold St.readArray
+  by_cases h0 : N = 0
+  · subst h0
+    simp only [if_true]
+    rw [mem_readArray]
+    simp
+    exact ⟨rfl, rfl, hs⟩
+  · simp only [h0, if_false]
+    exact readExact_refines N h0 s hs
+
+/-- the required methods of the adapter refine the in-memory reader -/
+theorem adapter_refines_mem : Refines St.reader Inv St.abs where
+  readU8 := pop_refines
+  peekU8 := peekU8_refines
+  readSlice := readSlice_refines
+  readArray := readArray_refines
+  hasMore := hasMore_refines
+  checkEor := checkEor_spec
+
+-- ------------------------------------------------------------------------------------------ BufReader capacity
+/-- the reads a 256-byte (or any capacity) `BufReader` performs deliver the same bytes in the same order,
+    and keep the source contract -/
+theorem splitCap_flatten (cap : Nat) : ∀ (fuel : Nat) (c : List Nat), (splitCap cap fuel c).flatten = c
+  | 0, c => by simp [splitCap]
+  | fuel + 1, c => by
+    unfold splitCap
+    split
+    · simp
+    · simp [splitCap_flatten cap fuel]
+
+theorem capSplit_flatten (cap : Nat) : ∀ chunks : List (List Nat), (capSplit cap chunks).flatten = chunks.flatten
+  | [] => rfl
+  | c :: rest => by
+    have := capSplit_flatten cap rest
+    unfold capSplit at this ⊢
+    simp [splitCap_flatten, this]
+
+theorem splitCap_nonempty (cap : Nat) : ∀ (fuel : Nat) (c : List Nat), c ≠ [] →
+    ∀ p ∈ splitCap cap fuel c, p ≠ []
+  | 0, c, hc, p, hp => by simp [splitCap] at hp; rw [hp]; exact hc
+  | fuel + 1, c, hc, p, hp => by
+    unfold splitCap at hp
+    split at hp
+    · simp at hp; rw [hp]; exact hc
+    · rename_i hcap
+      have hcap' : ¬ c.length ≤ cap ∧ cap ≠ 0 := by simpa [not_or] using hcap
+      simp at hp
+      rcases hp with hp | hp
+      · rw [hp]
+        intro h0
+        have := congrArg List.length h0
+        rw [List.length_take, List.length_nil] at this
+        omega
+      · refine splitCap_nonempty cap fuel (c.drop cap) ?_ p hp
+        intro h0
+        have := congrArg List.length h0
+        simp at this
+        omega
+
+theorem fused_capSplit (cap : Nat) : ∀ chunks : List (List Nat), Fused chunks → Fused (capSplit cap chunks)
+  | [], _ => trivial
+  | c :: rest, h => by
+    have hrec := fused_capSplit cap rest h.2
+    have hcs : capSplit cap (c :: rest) = splitCap cap c.length c ++ capSplit cap rest := by
+      simp [capSplit]
+    rw [hcs]
+    by_cases hc : c = []
+    · subst hc
+      have hfl : (capSplit cap rest).flatten = [] := by rw [capSplit_flatten]; exact h.1 rfl
+      have : splitCap cap ([] : List Nat).length [] = [[]] := by simp [splitCap]
+      rw [this]
+      exact ⟨fun _ => hfl, fused_of_flatten_nil _ hfl⟩
+    · exact fused_append _ _ (splitCap_nonempty cap c.length c hc) hrec
 
 end WinterProofs.C13
